@@ -28,7 +28,7 @@ MANIFEST = dict(
               'small scope; the quantisation model runs on the kernel\'s binary64 floats) + round-trip / second-generation / '
               'observer-effect oracle search on all eight writers with names that collide under casefold / strip, repeated names and '
               'deep-copied values; every call into the implementation under a time limit',
-    text='Theorems in Props/C20.v (75): cmdseq.parse(cmdseq.write(v)) = v and byte-identical second generation for every configuration '
+    text='Theorems in Props/C20.v (76): cmdseq.parse(cmdseq.write(v)) = v and byte-identical second generation for every configuration '
          'satisfying the obligations regenerated from cmdseq.py; the scenes.image writer over the configuration regenerated from choreo.py '
          'produces the bytes of the container model for both input forms whatever the dict keys are, parses back (header, pool through '
          'the offset table, CRC-sorted table, v2/v3 summaries, blobs; LZMA as a hypothesis pair), its table is sorted by the stored '
@@ -1741,6 +1741,8 @@ def run(ck: Ck) -> None:
                       '(round / clamp / divide on the kernel floats): differential correspondence with Mesh.export and Tag / AbsoluteTag.export_binary / '
                       'parse_binary on every run; Fmt/BspDedup*.v (C11) for the find-or-insert table; WRITER_ITEM / READERS tables of '
                       'translate/c20_keytables.py (which function is a writer / reader, which class a str-keyed table stands for)')
+    ck.trusted.append('Coq kernel primitives PrimInt63.* and PrimFloat.* (63-bit integers, IEEE binary64): the quantisation theorems are computations on '
+                      'them; Print Assumptions lists these primitives and no logical axiom (no FloatAxioms)')
     ck.trusted.append('KV/KvLex.v (tokenizer model of C01) for the quoted-field theorems; the escape table is tied to tokenizer.py by C01')
     ck.trusted.append('CPython struct (float32 conversion of the version tag and of scene times), lzma and zlib.crc32 (outside the models)')
     ck.assumptions += [
